@@ -242,3 +242,37 @@ func (n *Node) RawBlock(ctx context.Context, c cid.Cid) []byte {
 	}
 	return b.RawData()
 }
+
+// CommitHeightProblems checks, over the whole history of a document as `commits` reports it, that every commit stands one
+// above the highest of the commits it names as parents (`_head` links), and none above nothing but the first.
+func (n *Node) CommitHeightProblems(ctx context.Context, docID string) []string {
+	r := n.GQL(ctx, fmt.Sprintf(`query { commits(docID: "%s") { cid height fieldName links { cid name } } }`, docID))
+	var m struct {
+		Commits []struct {
+			Cid       string
+			Height    int
+			FieldName any
+			Links     []struct{ Cid, Name string }
+		}
+	}
+	if err := json.Unmarshal([]byte(r), &m); err != nil {
+		return []string{"commits query: " + r}
+	}
+	height := map[string]int{}
+	for _, c := range m.Commits {
+		height[c.Cid] = c.Height
+	}
+	var out []string
+	for _, c := range m.Commits {
+		mx := 0
+		for _, l := range c.Links {
+			if l.Name == "_head" && height[l.Cid] > mx {
+				mx = height[l.Cid]
+			}
+		}
+		if c.Height != mx+1 {
+			out = append(out, fmt.Sprintf("commit %s (field %v) has height %d, its highest parent has %d", c.Cid, c.FieldName, c.Height, mx))
+		}
+	}
+	return out
+}
